@@ -82,7 +82,9 @@ def _csr_node(draw, dw, depth):
             w["named"] = True     # their register names are fixed ('enable', 'Mode', ...): anonymous twins would collide
         subs.append(dict(w, node=child))
     return {"t": "csrdec", "dw": dw, "al": draw(st.sampled_from([0, 0, 1, 2])), "subs": subs,
-            "extra_aw": draw(st.integers(0, 1)), "squeeze": False, "shuffle": draw(st.integers(0, 2)) == 0}
+            "extra_aw": draw(st.integers(0, 1)), "squeeze": False, "shuffle": draw(st.integers(0, 2)) == 0,
+            "mid_elab": draw(st.sampled_from([None, None, None, 0, 1])),
+            "readd": [draw(st.integers(0, 2))] if draw(st.integers(0, 5)) == 0 else []}
 
 
 @st.composite
@@ -105,7 +107,8 @@ def _wb_node(draw, dw, g, depth):
         subs.append(dict(w, node=node))
     return {"t": "wbdec", "dw": dw, "g": g, "feat": draw(gens.wb_features()), "al": draw(st.sampled_from([0, 0, 1, 2])),
             "subs": subs, "extra_aw": draw(st.integers(0, 1)), "squeeze": False, "zero_aw": False,
-            "shuffle": draw(st.integers(0, 2)) == 0}
+            "shuffle": draw(st.integers(0, 2)) == 0, "mid_elab": draw(st.sampled_from([None, None, None, 0, 1])),
+            "readd": [draw(st.integers(0, 2))] if draw(st.integers(0, 5)) == 0 else []}
 
 
 @st.composite
@@ -148,8 +151,7 @@ def _build_csr(node, path, h, dw):
     """-> (csr bus interface, depth)"""
     t = node["t"]
     if t == "mux":
-        mm, regs = gens.build_csr_map(node["lay"], name_prefix=_pfx(path, "r"))
-        mux = csr.Multiplexer(mm)
+        mux, regs = gens.build_csr_mux(node["lay"], None, name_prefix=_pfx(path, "r"))
         h.comps.append(mux)
         for (reg, s, e), r in zip(regs, node["lay"]["regs"]):
             h.mock.append((reg, r))
